@@ -744,6 +744,14 @@ func (e *c14Env) checkState() Verdict {
 			}
 		}
 	}
+	// staged refs never outlive their transaction row (nothing could discard or collect them any more)
+	if e.flags != 1 && e.status() == 0 {
+		for i, st := range e.stagedNow() {
+			if st {
+				return Fail("discard-not-completable", "the transaction row is gone but its staged ref on %s remains: Discard can never finish and gc never finds it", e.names[i])
+			}
+		}
+	}
 	// the other transactions are never touched
 	for i, s := range e.otherSum {
 		got, err := e.rs.Get(ref.TransactionRef(e.other.String(), e.names[i]))
@@ -802,6 +810,7 @@ func runC14(ctx *Ctx, c *xt.T) (*xt.T, Verdict) {
 	masked := false
 	faultedCommits := 0
 	tamb := false
+	discardPending := false // a Discard of the in-progress transaction failed part-way
 	for opi, op := range c.Kids[2].Kids {
 		kind := int(op.Kids[0].N)
 		f := &c14Fault{mode: -1}
@@ -914,6 +923,16 @@ func runC14(ctx *Ctx, c *xt.T) (*xt.T, Verdict) {
 					bad(Fail("discard-created-ref", "%s created a staged ref on %s", what, e.names[i]))
 				}
 			}
+			if discardPending && f.mode == -1 && statusBefore != 2 {
+				left, lerr := ref.ListTransactionRefs(e.rs, e.me)
+				if err != nil || lerr != nil || len(left) != 0 || e.status() != 0 {
+					bad(Fail("discard-not-completable", "%s re-run without failure after an interrupted Discard: err=%v, %d staged refs remain, status=%d", what, err, len(left), e.status()))
+				}
+				discardPending = false
+			}
+			if statusBefore == 1 && err != nil {
+				discardPending = true
+			}
 			switch statusBefore {
 			case 2:
 				if err == nil || before != after {
@@ -954,6 +973,20 @@ func runC14(ctx *Ctx, c *xt.T) (*xt.T, Verdict) {
 }
 
 // ---------------------------------------------------------------- generator
+
+// table id of the head of branch i right before the first op (-1 = the branch does not exist)
+func c14HeadTable(i int, sp c14Spec) int {
+	base := 100 + 10*i
+	switch {
+	case sp.late:
+		return base + 5
+	case sp.hist == 0:
+		return -1
+	case sp.hist == 1:
+		return base
+	}
+	return base + 1
+}
 
 func c14BSpec(sp c14Spec) *xt.T {
 	st, ot := xt.N(), xt.N()
@@ -1089,6 +1122,12 @@ func genC14(ctx *Ctx) []Case {
 	g.emit("witness", 0, w, g.opCT(0, 0, 2), g.opC(2), g.opC(2))
 	g.emit("witness", 0, w, g.opCT(0, 1, 2), g.opC(2), g.opC(2))
 	g.emit("witness", 0, w, g.opCT(1, 0, 2), g.opC(2), g.opD(2))
+	// seeded: Commit skipped a branch whose head already holds the staged table (no move, no log entry)
+	g.emit("witness", 0, []c14Spec{S(1, 100, false, -1)}, g.opC(1), g.opC(1))
+	g.emit("witness", 0, []c14Spec{S(1, 100, false, -1), S(0, 100, false, -1)}, g.opCF(0, 2, 2), g.opC(2), g.opD(2))
+	// seeded: Discard deleted the transaction row before the staged refs
+	g.emit("witness", 0, w, g.opDF(0, 1, 2), g.opD(2), g.opD(2))
+	g.emit("witness", 0, w, g.opDF(1, 2, 2), g.opD(2), g.opC(2))
 	// ed29119: a failing read of the branch head (5th store call) dropped the parent
 	g.emit("witness", 0, []c14Spec{S(1, 1, false, -1)}, g.opCF(2, 4, 1), g.opC(1))
 	g.emit("witness", 0, []c14Spec{S(0, 1, true, -1), S(3, 2, false, -1)}, g.opCF(2, 4, 2), g.opC(2), g.opC(2), g.opD(2))
@@ -1121,6 +1160,37 @@ func genC14(ctx *Ctx) []Case {
 	}
 	// the same staged table on two new branches: the two new commits are ONE object
 	g.families("exh2", []c14Spec{S(0, 7, false, -1), S(0, 7, false, -1)}, true)
+	// table identity patterns: the staged table equal to the branch's own head table, to another
+	// branch's head table, to another branch's staged table; new branches staging an existing table
+	for hist := 0; hist <= 3; hist++ {
+		for _, late := range []bool{false, true} {
+			sp := S(hist, 0, late, -1)
+			if t := c14HeadTable(0, sp); t >= 0 {
+				sp.staged = t
+				g.families("tbl1", []c14Spec{sp}, true)
+				ctx.Count("staged_equals_own_head_table")
+			}
+		}
+	}
+	for _, ha := range []int{0, 1, 3} {
+		for _, hb := range []int{1, 2} {
+			a, b := S(ha, 1, false, -1), S(hb, 2, hb == 2, -1)
+			tb := c14HeadTable(1, b)
+			// both stage b's head table (b: own head; a: another branch's head, same as b's staged)
+			a.staged, b.staged = tb, tb
+			g.families("tbl2", []c14Spec{a, b}, ctx.Thorough() || ha == 1)
+			ctx.Count("staged_equals_other_head_table")
+			if ta := c14HeadTable(0, a); ta >= 0 {
+				// crossed: each stages the other's head table
+				a.staged, b.staged = tb, ta
+				g.families("tbl2", []c14Spec{a, b}, ctx.Thorough())
+				// own head table on one branch, fresh table on the other, bystander-free
+				a.staged, b.staged = ta, 2
+				g.families("tbl2", []c14Spec{a, b}, ctx.Thorough())
+				ctx.Count("staged_equals_own_head_table")
+			}
+		}
+	}
 	// three and four branches: random configurations, every fault position
 	n3, n4 := 5, 3
 	if ctx.Thorough() {
@@ -1136,6 +1206,33 @@ func genC14(ctx *Ctx) []Case {
 		}
 		return sp
 	}
+	// impose a table identity pattern on a random configuration
+	retable := func(specs []c14Spec) {
+		for i := range specs {
+			if specs[i].staged < 0 {
+				continue
+			}
+			switch ctx.Pick(6) {
+			case 0: // own head's table
+				if t := c14HeadTable(i, specs[i]); t >= 0 {
+					specs[i].staged = t
+					ctx.Count("staged_equals_own_head_table")
+				}
+			case 1: // another branch's head table
+				j := ctx.Pick(len(specs))
+				if t := c14HeadTable(j, specs[j]); t >= 0 && j != i {
+					specs[i].staged = t
+					ctx.Count("staged_equals_other_head_table")
+				}
+			case 2: // another branch's staged table
+				j := ctx.Pick(len(specs))
+				if specs[j].staged >= 0 && j != i {
+					specs[i].staged = specs[j].staged
+					ctx.Count("same_table_twice")
+				}
+			}
+		}
+	}
 	for r := 0; r < n3+n4; r++ {
 		k := 3
 		if r >= n3 {
@@ -1144,6 +1241,9 @@ func genC14(ctx *Ctx) []Case {
 		var specs []c14Spec
 		for i := 0; i < k; i++ {
 			specs = append(specs, randSpec(i, i == 0))
+		}
+		if r%2 == 1 {
+			retable(specs)
 		}
 		g.families(fmt.Sprintf("rand%d", k), specs, ctx.Thorough())
 	}
